@@ -2,7 +2,7 @@
    Statements only. The model is Manager.v (tied to the code by the tier-B correspondence of ./check C05). *)
 Require Import Coq.Lists.List Coq.NArith.NArith Coq.ZArith.ZArith.
 From Mustache Require Import Res Manager Palette MgrSpec Refine.
-From Mustache.proofs Require Import ManagerIsolation.
+From Mustache.proofs Require Import ManagerIsolation ManagerDeferred.
 Import ListNotations.
 
 (* (1) isolation: while the manager is locked, a creation / destruction / assignment / removal issued from ANY thread id
@@ -58,3 +58,148 @@ Proof.
   split; vm_compute; reflexivity.
 Qed.
 Print Assumptions C05_pack_assign_then_remove_refuted.
+
+(* ------------------------------------------------------------------------------------------------------------ *)
+(* Deferred mode, part 2 (proofs/ManagerDeferred.v). All theorems are for EVERY state of the model.               *)
+
+(* (5) packs: applyStorage cuts a buffer into the maximal runs of consecutive commands on one handle.
+   uniform p: all commands of p have handle_eqb handles; adjacent_differ: commands of consecutive packs never do. *)
+Theorem C05_split_packs : forall b,
+  concat (split_packs b []) = b /\
+  Forall (fun p => p <> [] /\ uniform p) (split_packs b []) /\
+  adjacent_differ (split_packs b []).
+Proof. exact split_packs_correct. Qed.
+Print Assumptions C05_split_packs.
+
+Theorem C05_handle_eqb_is_equality : forall a b, handle_eqb a b = true <-> a = b.
+Proof. exact handle_eqb_eq. Qed.
+Print Assumptions C05_handle_eqb_is_equality.
+
+(* (6) unlock with nothing recorded: the flush is the identity up to the epoch counter and the cleared temporaries *)
+Theorem C05_flush_empty : forall s,
+  Forall (fun b => b = []) (bufs s) ->
+  flush s = Ok (set_epoch (set_bufs s (bufs s) (map (fun _ => []) (tmps s))) (S (epoch s))).
+Proof. exact flush_empty. Qed.
+Print Assumptions C05_flush_empty.
+
+(* (7) a buffer all of whose commands have targets that are not valid and that it does not create (buf_deadb; the
+   component ids of its assign commands are registered, as assign_locked guarantees) is skipped as a whole:
+   the state is unchanged except for the log, which gains exactly the destruction events (EvD) of the buffer's own
+   temporaries (dtor_events: one per assign command whose component type has an instrumented destructor) *)
+Theorem C05_dead_buffer_skipped : forall s tid b,
+  buf_deadb s b = true -> apply_storage s (tid, b) = Ok (set_log s (rev (dtor_events s tid b) ++ log s)).
+Proof. exact apply_storage_dead. Qed.
+Print Assumptions C05_dead_buffer_skipped.
+
+Theorem C05_dead_buffer_events_own : forall s tid b e, In e (dtor_events s tid b) ->
+  exists h cid n inf, In (AAssign h cid n) b /\ nth_error (cinfos s) cid = Some inf /\
+                      e = EvD (ci_pal inf) (PTmp (epoch s * 64 + tid) n).
+Proof. exact dtor_events_own. Qed.
+Print Assumptions C05_dead_buffer_events_own.
+
+(* the whole flush when every buffer is dead *)
+Theorem C05_flush_all_dead : forall s,
+  forallb (buf_deadb s) (bufs s) = true ->
+  flush s = Ok (set_epoch (set_bufs (set_log s (rev (flush_events s (numbered_bufs s)) ++ log s))
+                                    (map (fun _ => []) (bufs s)) (map (fun _ => []) (tmps s)))
+                          (S (epoch s))).
+Proof. exact flush_all_dead. Qed.
+Print Assumptions C05_flush_all_dead.
+
+(* inside any buffer: a pack whose target is dead when the pack is reached contributes nothing *)
+Theorem C05_dead_pack_in_sequence : forall tid ps1 c t ps2 s s1,
+  fold_res (apply_pack tid) ps1 s = Ok s1 -> cmd_deadb s1 c = true ->
+  fold_res (apply_pack tid) (ps1 ++ (c :: t) :: ps2) s = fold_res (apply_pack tid) ps2 s1.
+Proof. exact dead_pack_in_sequence. Qed.
+Print Assumptions C05_dead_pack_in_sequence.
+
+(* (8) the entity builder while locked. with_rec s e b t l is s with ONLY the id counter, the buffers, the temporaries and
+   the log replaced.  On an existing entity: one AAssign per assignment, in order, numbered from the current number of
+   temporaries of the caller's buffer, then one ARemove per removed component; the temporaries hold the assigned values
+   (types without a readable value: None); the log gains one EvV per instrumented assignment, at the new temporary. *)
+Theorem C05_builder_records_existing : forall s tid h assigns removes s' r k,
+  lockc s = S k -> step s (OBuild tid (Some h) assigns removes) = Ok (s', r) ->
+  s' = with_rec s (next_eid s)
+         (upd (bufs s) tid (nth tid (bufs s) [] ++
+            assign_cmds h (length (nth tid (tmps s) [])) assigns ++ map (ARemove h) (mitems (mask_of_list removes))))
+         (upd (tmps s) tid (nth tid (tmps s) [] ++ map (assign_cell (cinfos s)) assigns))
+         (rev (assign_evs (cinfos s) (epoch s * 64 + tid) (length (nth tid (tmps s) [])) assigns) ++ log s) /\
+  r = RNone.
+Proof. exact build_locked_some. Qed.
+Print Assumptions C05_builder_records_existing.
+
+(* On a new entity: first one ACreate of the fresh handle (empty mask), then the assignments; the id counter advances.
+   The removal list of such a builder is not recorded (the model mirrors the implementation here). *)
+Theorem C05_builder_records_new : forall s tid assigns removes s' r k,
+  lockc s = S k -> step s (OBuild tid None assigns removes) = Ok (s', r) ->
+  s' = with_rec s (next_eid s + 1)%N
+         (upd (bufs s) tid (nth tid (bufs s) [] ++
+            ACreate (fresh_handle s) false 0%N si_null :: assign_cmds (fresh_handle s) (length (nth tid (tmps s) [])) assigns))
+         (upd (tmps s) tid (nth tid (tmps s) [] ++ map (assign_cell (cinfos s)) assigns))
+         (rev (assign_evs (cinfos s) (epoch s * 64 + tid) (length (nth tid (tmps s) [])) assigns) ++ log s) /\
+  r = RHandle (fresh_handle s).
+Proof. exact build_locked_none. Qed.
+Print Assumptions C05_builder_records_new.
+
+(* the i-th assignment becomes the i-th assign command, on the builder's handle, with the next temporary number *)
+Theorem C05_builder_assign_cmds : forall h assigns n0 i a,
+  nth_error assigns i = Some a -> nth_error (assign_cmds h n0 assigns) i = Some (AAssign h (fst a) (n0 + i)).
+Proof. exact assign_cmds_nth. Qed.
+Print Assumptions C05_builder_assign_cmds.
+
+(* the removal commands: increasing component order, exactly the distinct listed components below the mask width *)
+Theorem C05_builder_removals : forall h removes,
+  Sorted.StronglySorted lt (mitems (mask_of_list removes)) /\
+  forall c, In (ARemove h c) (map (ARemove h) (mitems (mask_of_list removes))) <-> (In c removes /\ c < MASK_BITS).
+Proof. exact build_removals_exact. Qed.
+Print Assumptions C05_builder_removals.
+
+(* isolation (1) extended to the builder *)
+Theorem C05_isolation_builder : forall s tid target assigns removes s' r,
+  lockc s <> 0 -> step s (OBuild tid target assigns removes) = Ok (s', r) -> observe s' = observe s.
+Proof. exact build_isolated. Qed.
+Print Assumptions C05_isolation_builder.
+
+(* ---- non-vacuity of the hypotheses above, on reachable states ---- *)
+Definition run_ops (s : mst) (ops : list op) : res mst := fold_res (fun st o => do r <- step st o; Ok (fst r)) ops s.
+Definition cisD : list cinfo := [pal_info 0 0; pal_info 2 0].
+(* entity (0,0) is created and destroyed; under lock, thread 1 assigns the instrumented component 1 to it and removes
+   component 0 from it, the owner destroys it again *)
+Definition dead_script : list op :=
+  [OCreate 0 1%N [] false; ODestroyNow 0 (0, 0)%N; OLock;
+   OAssign 1 (0, 0)%N 1 (AValue 5%Z) true; ORemove 1 (0, 0)%N 0 true; ODestroyNow 0 (0, 0)%N].
+
+Example C05_dead_buffer_example :
+  exists s, run_ops (init 2 cisD) dead_script = Ok s /\
+    bufs s = [[ADestroyNow (0, 0)%N]; [AAssign (0, 0)%N 1 0; ARemove (0, 0)%N 0]] /\
+    forallb (buf_deadb s) (bufs s) = true /\
+    dtor_events s 1 (nth 1 (bufs s) []) = [EvD 2 (PTmp 1 0)] /\
+    split_packs (nth 1 (bufs s) []) [] = [[AAssign (0, 0)%N 1 0; ARemove (0, 0)%N 0]].
+Proof. eexists. split; [vm_compute; reflexivity|]. repeat split; vm_compute; reflexivity. Qed.
+
+(* flush_empty: a lock taken and nothing recorded *)
+Example C05_flush_empty_example :
+  exists s, run_ops (init 2 cisD) [OCreate 0 1%N [] false; OLock] = Ok s /\ bufs s = [[]; []] /\ lockc s = 1.
+Proof. eexists. split; [vm_compute; reflexivity|]. split; reflexivity. Qed.
+
+(* dead_pack_in_sequence: a live pack first, then a dead one, then a live one *)
+Example C05_dead_pack_example :
+  exists s s1, run_ops (init 2 cisD) [OCreate 0 1%N [] false; OCreate 0 1%N [] false; ODestroyNow 0 (0, 0)%N; OLock] = Ok s /\
+    fold_res (apply_pack 0) [[ARemove (1, 0)%N 0]] s = Ok s1 /\ cmd_deadb s1 (ADestroyNow (0, 0)%N) = true.
+Proof. eexists. eexists. split; [vm_compute; reflexivity|]. split; vm_compute; reflexivity. Qed.
+
+(* the builder under lock, on an existing entity and on a new one, from thread 1 *)
+Example C05_builder_example :
+  exists s s1 s2 h,
+    run_ops (init 2 cisD) [OCreate 0 3%N [] false; OLock] = Ok s /\ lockc s = 1 /\
+    step s (OBuild 1 (Some (0, 0)%N) [(1, 7%Z); (0, 8%Z)] [1; 0; 1]) = Ok (s1, RNone) /\
+    bufs s1 = [[]; [AAssign (0, 0)%N 1 0; AAssign (0, 0)%N 0 1; ARemove (0, 0)%N 0; ARemove (0, 0)%N 1]] /\
+    tmps s1 = [[]; [Some 7%Z; Some 8%Z]] /\ log s1 = EvV 2 (PTmp 1 0) :: log s /\
+    step s1 (OBuild 1 None [(1, 9%Z)] [0]) = Ok (s2, RHandle h) /\ h = (1, 0)%N /\
+    nth 1 (bufs s2) [] = nth 1 (bufs s1) [] ++ [ACreate h false 0%N si_null; AAssign h 1 2] /\
+    next_eid s2 = (next_eid s1 + 1)%N.
+Proof.
+  eexists. eexists. eexists. eexists. split; [vm_compute; reflexivity|]. split; [reflexivity|].
+  split; [vm_compute; reflexivity|]. split; [reflexivity|]. split; [reflexivity|]. split; [reflexivity|].
+  split; [vm_compute; reflexivity|]. repeat split; vm_compute; reflexivity.
+Qed.
